@@ -57,8 +57,7 @@ def check(F, ck, rule):
                       'DECODER LENGTH MISMATCH: read_fri_initial_proof reads %s elements for the leaf of oracle %d, but that oracle commits to %s polynomials (CommonCircuitData::fri_oracles): proofs of circuits where the two differ '
                       '(e.g. lookups with more than one challenge) no longer decode' % (poly.show(body), i, poly.show(po)), r.get('s'))
                 if bl is not None:
-                    want = {('salt_size()',): 1} if bl else {}
-                    oks = salt == want
+                    oks = (len(salt) == 1 and list(salt.values()) == [1]) if bl else not salt
                     ck.ob(rule, 'leaf-salt:oracle%d' % i, oks, 'salt %s as the oracle is %sblinding' % ('added' if bl else 'absent', '' if bl else 'not ') if oks else
                           'read_fri_initial_proof %s salt for oracle %d whose blinding flag is %s' % ('adds' if salt else 'omits', i, bl), r.get('s'))
             except poly.Unknown as ex:
